@@ -27,7 +27,7 @@ ASSUMPTIONS = ["reporting a writable socket as not writable is behaviour select 
                "a reset has reached the manager's kernel before the round (the harness waits for it), so the write fails",
                "more than one notice per failure, or a notice for a subscriber the destination filter would skip, is "
                "not prohibited by the statement (counted as advisory)"]
-REQUIRE = {"undeliverable_events": 100, "notices_matched": 100, "notices_for_write_failures": 20, "logger_waits_checked": 10, "recursion_cases": 10}
+REQUIRE = {"manager_originated_undeliverable": 50, "undeliverable_events": 100, "notices_matched": 100, "notices_for_write_failures": 20, "logger_waits_checked": 10, "recursion_cases": 10}
 CASE_TIMEOUT = 60
 T = 1234
 
@@ -87,15 +87,107 @@ def gen_cases(tier, seed):
         add(k=k, nw=[i for i in range(k) if rng.random() < 0.4], logger=[rng.random() < 0.3 for _ in range(k)],
             suball=[rng.random() < 0.3 for _ in range(k)], rst=[i for i in range(k) if rng.random() < 0.25],
             dest=rng.choice("bbax"), type=rng.choice(types), mon_nw=rng.random() < 0.2, npub=rng.choice([1, 1, 2]))
+    # messages that originate from the manager itself (CLIENT_INFO after CLIENT_SET_NAME / MODULE_READY) and cannot
+    # be handed to a subscriber
+    for _ in range(300 if tier == "quick" else 6000):
+        k = rng.randint(1, 3)
+        add(kind="mgr", k=k, nw=[i for i in range(k) if rng.random() < 0.4], logger=[rng.random() < 0.25 for _ in range(k)],
+            suball=[rng.random() < 0.4 for _ in range(k)], rst=[i for i in range(k) if rng.random() < 0.35],
+            trig=rng.choice(["name", "ready"]), mon_nw=False)
     for i, c in enumerate(cases):
         c["tc"] = i % 5 == 4
     return cases
+
+
+def build_mgr(c):
+    k = c["k"]
+    steps = [["open", "p"], ["hello", "p", {"mod_id": 10}], ["open", "m"], ["hello", "m", {"mod_id": 11}],
+             ["open", "m2"], ["hello", "m2", {"mod_id": 12}]]
+    for i in range(k):
+        steps += [["open", f"s{i}"], ["hello", f"s{i}", {"mod_id": 20 + i, "logger": int(c["logger"][i])}]]
+    steps.append(["drain"])
+    steps += [["sub", "m", W.MT_FAILED_MESSAGE], ["sub", "m2", W.MT_FAILED_MESSAGE]]
+    for i in range(k):
+        steps.append(["sub", f"s{i}", ALL if c["suball"][i] else W.MT_CLIENT_INFO])
+    steps.append(["drain"])
+    for i in c["rst"]:
+        steps += [["close", f"s{i}", "rst"], ["await_closed", f"s{i}"]]
+    steps.append(["name", "p", b"pp-renamed".hex()] if c["trig"] == "name" else ["ready", "p", 31337])
+    steps.append(["round", {"only": ["p"], "order": ["p"], "nw": [f"s{i}" for i in c["nw"]], "adv": 0.001}])
+    steps.append(["drain", {"adv": 0.001}])
+    return steps
+
+
+def judge_mgr(sc, c):
+    res = {"violations": [], "counters": {}, "sets": {}, "sig": sig_of({k: c[k] for k in c if k not in ("n",)}),
+           "nontrivial": False}
+    V, C = res["violations"], res["counters"]
+    if sc.crashed or sc.hung:
+        V.append({"mech": "manager_died", "detail": (sc.rig.crash or "hung")[-800:]})
+        return res
+    if sc.problems:
+        res["inconclusive"] = "; ".join(sc.problems[:3])
+        return res
+    rx = sc.received()
+    for mech, detail in stream_checks(sc, rx):
+        V.append({"mech": "c05:" + mech, "detail": detail})
+    notices = {}
+    for M in ("m", "m2"):
+        notices[M] = [W.unpack_failed(f.payload) for f in rx[M]["frames"]
+                      if f.msg_type == W.MT_FAILED_MESSAGE and f.src_mod == 0 and len(f.payload) == 64]
+        for n in notices[M]:
+            if n["h_type"] in (W.MT_FAILED_MESSAGE,) + W.MT_LOGS:
+                V.append({"mech": "notice_about_notice_or_log", "detail": f"{M} received a FAILED_MESSAGE whose embedded header has type {n['h_type']}"})
+    if [(n["dest_mod_id"], n["h_type"]) for n in notices["m"]] != [(n["dest_mod_id"], n["h_type"]) for n in notices["m2"]]:
+        V.append({"mech": "notice_not_to_all_subscribers", "detail": f"m saw {[(n['dest_mod_id'], n['h_type']) for n in notices['m']]}, m2 saw {[(n['dest_mod_id'], n['h_type']) for n in notices['m2']]}"})
+
+    def is_the_info(f):
+        if f.msg_type != W.MT_CLIENT_INFO or f.src_mod != 0 or len(f.payload) != 80:
+            return False
+        u = W.unpack_client(f.payload)
+        return u["mod_id"] == 10 and (u["name"] == "pp-renamed" if c["trig"] == "name" else u["pid"] == 31337)
+
+    for i in range(c["k"]):
+        L = f"s{i}"
+        cs = sc.cl[L]
+        dead, nw = i in c["rst"], i in c["nw"]
+        copies = sum(1 for f in rx[L]["frames"] if is_the_info(f))
+        named = [n for n in notices["m"] if n["dest_mod_id"] == cs.mod_id]
+        if (nw and not c["logger"][i]) or dead:
+            res["nontrivial"] = True
+            C["undeliverable_events"] = C.get("undeliverable_events", 0) + 1
+            C["manager_originated_undeliverable"] = C.get("manager_originated_undeliverable", 0) + 1
+            if dead or copies == 0:
+                mine = [n for n in named if (n["h_type"], n["h_src_mod"], n["h_dest_mod"]) == (W.MT_CLIENT_INFO, 0, 0)]
+                if not named:
+                    V.append({"mech": "silent_loss_manager_message", "detail": f"CLIENT_INFO ({c['trig']}) could not be handed to {L} (mod {cs.mod_id}, logger={c['logger'][i]}, "
+                                                                              f"nw={nw}, reset={dead}) and no FAILED_MESSAGE names it; notices: {[(n['dest_mod_id'], n['h_type']) for n in notices['m']]}"})
+                elif not mine:
+                    V.append({"mech": "notice_wrong_header", "detail": f"notice(s) for {L}: embedded (type,src,dest)={[(n['h_type'], n['h_src_mod'], n['h_dest_mod']) for n in named]}, "
+                                                                       f"original ({W.MT_CLIENT_INFO},0,0)"})
+                else:
+                    C["notices_matched"] = C.get("notices_matched", 0) + 1
+                    if dead and not (nw and not c["logger"][i]):
+                        C["notices_for_write_failures"] = C.get("notices_for_write_failures", 0) + 1
+        else:
+            if nw and c["logger"][i]:
+                C["logger_waits_checked"] = C.get("logger_waits_checked", 0) + 1
+            if copies != 1:
+                V.append({"mech": "logger_skipped" if (nw and c["logger"][i]) else "other_subscriber_missed",
+                          "detail": f"CLIENT_INFO ({c['trig']}): deliverable subscriber {L} got {copies} copies; nw={c['nw']} rst={c['rst']}"})
+            else:
+                C["deliveries_ok"] = C.get("deliveries_ok", 0) + 1
+    res["sets"]["fault_shape"] = [["mgr", c["k"], len(c["nw"]), len(c["rst"]), c["trig"], sum(c["logger"])]]
+    return res
 
 
 def run_case(case, tier):
     rig = ManagerRig(stepped=True, timecode=bool(case.get("tc")))
     try:
         sc = Scenario(rig, 0)
+        if case.get("kind") == "mgr":
+            sc.run(build_mgr(case))
+            return judge_mgr(sc, case)
         sc.run(build(case))
         return judge(sc, case)
     finally:
